@@ -208,6 +208,14 @@ MaskImpl(s, U) ==               \* centre mode only (n = 1)
   ELSE IF IsAnnulus(s) THEN MaskImpl(AnnulusAsXor(s), U)
   ELSE GridOn(Plain(s), BoxOf(s, U).box, U, 1)
 
+(* which (shape, mode) combinations yield a mask; the others raise NotImplementedError *)
+Supported(s, mode) ==
+  CASE s.k \in {"circle", "ellipse"} -> TRUE
+    [] s.k \in {"rectangle", "polygon"} -> mode \in {"center", "subpixels"}
+    [] s.k \in {"cannulus", "eannulus", "rannulus", "compound"} -> mode = "center"
+    [] OTHER -> FALSE
+Modes == <<"center", "subpixels", "exact">>
+
 (* ---------------- rigid motions ---------------- *)
 (* Rotating by e = <<c, s, h>> about pivot multiplies the unit by h: the result is expressed  *)
 (* in units 1/(U h).                                                                          *)
